@@ -12,9 +12,13 @@ import AsyncsshModel.Base.Hex
                  `_process_close` (630-644), `_discard_recv` (262-274), `pause_reading`/`resume_reading`
                  (999-1035), `_start_reading` (276-286)
 
-  What is *not* in this file: the text codec (`Model/ChannelCodec.lean`, applied to the delivered chunks), the
+  What is *not* in this file: the text layer (`Model/ChannelCodec.lean`: the decoder; `Model/ChannelDecode.lean`: one
+  decoder per data type composed with this endpoint, final decode, reset by `close()`), the
   `pause_writing`/`resume_writing` high/low-water callbacks to the session (`_pause_resume_writing`, no influence on
-  what is sent), channel requests, `abort()`.
+  what is sent), `abort()`, and channel requests — of which only `shell` / `exec` / `subsystem` touch the data path
+  (`_report_response` resumes reading): the first one runs before any data flows (it ends the `'starting'` phase
+  together with `_start_reading`), a later one is refused since repair e7dbee0 and does nothing
+  (`Model/ChannelVariants.lean`, which also has the `_accept_data` override of the layer-3 tunnel channel).
 
   The only loop whose termination is not structural, `while self._send_buf and self._send_window` in
   `_flush_send_buf`, is modelled with fuel (`flushData`): `none` means the fuel ran out.  `Lemmas/Channel.lean`
